@@ -24,7 +24,8 @@ TARGET = os.path.join(ROOT, "target")
 BIN = os.path.join(TARGET, "release")
 REPLAYS = os.path.join(ROOT, "replays")
 EVIDENCE = os.path.join(ROOT, "evidence")
-KNOWN = os.path.join(ROOT, "known_findings.json")
+# (the override exists only so that selftest.py can exercise the KNOWN-FINDING path with a scratch file)
+KNOWN = os.environ.get("VERIF_KNOWN_FINDINGS_FILE", os.path.join(ROOT, "known_findings.json"))
 NCPU = os.cpu_count() or 4
 
 ENV = dict(os.environ)
@@ -93,7 +94,7 @@ def slug(s):
 
 HIST_TIERS = {
     # runs, chunk, time budget (s), determinism re-check sample
-    "quick": dict(runs=20000, chunk=250, secs=240, recheck=200, max_ops=40),
+    "quick": dict(runs=60000, chunk=500, secs=240, recheck=200, max_ops=40),
     "thorough": dict(runs=3000000, chunk=2000, secs=600, recheck=5000, max_ops=100),
 }
 
